@@ -3,6 +3,7 @@ import OnetVerif.Proofs.C19Field
 import OnetVerif.Proofs.C19Stats
 import Mathlib.Algebra.Order.Field.Rat
 import Mathlib.Algebra.Order.BigOperators.Group.List
+import OnetVerif.Shapes
 
 set_option linter.unusedSectionVars false
 
@@ -365,5 +366,82 @@ example : Interleave [[(1 : ℕ), 2], [3]] [1, 3, 2] := by
 
 example : rulesMatch [{ low := 2, high := 5 }] 4 = true ∧ rulesMatch [{ low := 2, high := 5 }] 5 = false ∧
     rulesMatch [{ low := -3, high := 5 }] (-1) = false := by decide
+
+
+/-! ### the code regions the model stands for
+Regenerated from /repo's source on every run (`harness/cmd/astfacts` → `OnetVerif/Shapes.lean`): the
+calls that matter for synchronisation and data flow, the lock regions and (for decision logic) the
+conditions, in source order.  A re-ordering, a dropped call or a changed condition breaks these
+obligations even when no sampled input or schedule shows a difference; the check then searches for
+a failing input. -/
+theorem c19_shape_monitor_stats_Value_Store :
+    Shapes.simul_monitor_stats_Value_Store =
+   ["t.Lock", "defer:t.Unlock"] := rfl
+
+theorem c19_shape_monitor_stats_Value_Collect :
+    Shapes.simul_monitor_stats_Value_Collect =
+   ["t.Lock", "defer:t.Unlock", "if:((t.min>newTime)||(t.n==0))",
+     "if:((t.max<newTime)||(t.n==0))", "if:(t.n==1)", "else", "float64", "float64", "math.Sqrt"] := rfl
+
+theorem c19_shape_monitor_stats_AverageValue :
+    Shapes.simul_monitor_stats_AverageValue =
+   ["if:(len(st)<1)", "return:new(Value)", "if:(s.name!=name)", "return:new(Value)", "s.Lock",
+     "s.Unlock", "return:&t"] := rfl
+
+theorem c19_shape_monitor_stats_AverageStats :
+    Shapes.simul_monitor_stats_AverageStats =
+   ["new().init", "stats[].Lock", "stats[].Unlock", "stat.Lock", "stat.Unlock", "stat.Unlock",
+     "AverageValue"] := rfl
+
+theorem c19_shape_monitor_stats_Stats_Update :
+    Shapes.simul_monitor_stats_Stats_Update =
+   ["s.Lock", "defer:s.Unlock", "NewValue", "sort.Strings", "value.Store"] := rfl
+
+theorem c19_shape_monitor_stats_Stats_Collect :
+    Shapes.simul_monitor_stats_Stats_Collect =
+   ["s.Lock", "defer:s.Unlock", "v.Filter", "v.Collect"] := rfl
+
+theorem c19_shape_monitor_stats_Stats_WriteValues :
+    Shapes.simul_monitor_stats_Stats_WriteValues =
+   ["s.Collect", "s.Lock", "defer:s.Unlock", "v.Values"] := rfl
+
+theorem c19_shape_monitor_bucket_stats_BucketStats_Set :
+    Shapes.simul_monitor_bucket_stats_BucketStats_Set =
+   ["newBucketRule"] := rfl
+
+theorem c19_shape_monitor_bucket_stats_BucketStats_Get :
+    Shapes.simul_monitor_bucket_stats_BucketStats_Get =
+   ["s.Collect"] := rfl
+
+theorem c19_shape_monitor_bucket_stats_BucketStats_Update :
+    Shapes.simul_monitor_bucket_stats_BucketStats_Update =
+   ["rr.Match", "buckets[].Update"] := rfl
+
+theorem c19_shape_monitor_bucket_stats_bucketRule_Match :
+    Shapes.simul_monitor_bucket_stats_bucketRule_Match =
+   ["return:((index>=r.low)&&(index<r.high))"] := rfl
+
+theorem c19_shape_monitor_monitor_NewMonitor :
+    Shapes.simul_monitor_monitor_NewMonitor =
+   ["newBucketStats"] := rfl
+
+theorem c19_shape_monitor_monitor_Monitor_Listen :
+    Shapes.simul_monitor_monitor_Monitor_Listen =
+   ["strconv.Itoa", "net.Listen", "ln.Addr", "Addr().String", "net.SplitHostPort",
+     "send:sinkPortChan", "listenerLock.Lock", "listenerLock.Unlock", "go{", "ln.Accept",
+     "mutexConn.Lock", "conn.RemoteAddr", "RemoteAddr().String", "go{", "m.handleConnection",
+     "}", "mutexConn.Unlock", "}", "recv:measures", "m.update", "recv:done", "mutexConn.Lock",
+     "listenerLock.Lock", "listener.Close", "listenerLock.Unlock", "mutexConn.Unlock",
+     "mutexConn.Lock", "mutexConn.Unlock"] := rfl
+
+theorem c19_shape_monitor_monitor_Monitor_handleConnection :
+    Shapes.simul_monitor_monitor_Monitor_handleConnection =
+   ["json.NewDecoder", "dec.Decode", "send:measures", "send:done", "conn.RemoteAddr",
+     "RemoteAddr().String"] := rfl
+
+theorem c19_shape_monitor_monitor_Monitor_update :
+    Shapes.simul_monitor_monitor_Monitor_update =
+   ["stats.Update", "buckets.Update"] := rfl
+
 
 end C19
